@@ -177,6 +177,16 @@ impl Documents {
                 err: err.to_string(),
             })?;
 
+        // `write_all` on a tokio file returns as soon as the data has been handed to a blocking
+        // task. Wait until it has actually been written: the caller requests a compilation next,
+        // and the compiler reads this file from disk (it would see the truncated file otherwise).
+        file.flush()
+            .await
+            .map_err(|err| DocumentError::UnableToWriteFile {
+                path: uri.path().to_string(),
+                err: err.to_string(),
+            })?;
+
         Ok(())
     }
 
